@@ -17,10 +17,25 @@ A *history* is a JSON-able dict stored in the recipe under the key `'history'` (
 
 Every edit is made in place on `built.ds` through the same `_add_vars` the builders use, so the ground truth
 (`built.vars`: tag base, missing positions, storage type) of the edited dataset is known by construction.
+
+*Questions* are the second kind of history (recipe key `'queries'`): read-only public calls on the long-lived
+convention made before or between the selections — the native index of a position of ANY grid of the dataset
+(`wind_index(n, grid_kind=K)`, for one position or for a whole grid), its inverse, the shape of the grids, the grid
+of a variable, a variable made linear and wound back, a selection on another grid.  None of them changes what the
+dataset stores, so every selection that follows is judged exactly as on a dataset nobody asked anything of.
+
+    {'at':   'start' = asked before the index selections, 'mid' = between index and point selections, 'both',
+     'seed': the calls are drawn from `random.Random(seed)` once the grids are known (`ask`),
+     'n':    number of questions per stage}
 """
 from __future__ import annotations
 
+import json
 import random
+import warnings
+import zlib
+
+import numpy as np
 
 from harness.gen import datasets as G
 
@@ -111,3 +126,87 @@ def warm_up(built: G.Built, conv, how: str, native) -> str:
         return 'done'
     except Exception as e:  # noqa: BLE001
         return f'raised {type(e).__name__}'
+
+
+# ---- questions asked of the long-lived convention -------------------------------------------------------------------
+
+CALLS = ['wind_index', 'wind_index', 'wind_index', 'wind_index', 'unravel_index', 'ravel_index', 'grid_shape', 'get_grid_kind',
+         'ravel_wind', 'select_index', 'selector_for_index']
+
+
+def derive_queries(recipe: dict, rate_percent: int = 60) -> dict | None:
+    """The questions of a recipe, a function of the content of the recipe alone (no draw from the random stream of
+    the check, so the datasets and requests of a given VERIF_SEED are the same with and without questions)."""
+    h = zlib.crc32(json.dumps(recipe, sort_keys=True, default=str).encode())
+    if h % 100 >= rate_percent:
+        return None
+    return {'at': ['start', 'mid', 'mid', 'both'][(h // 100) % 4], 'seed': h // 400, 'n': 2 + (h // 7) % 4}
+
+
+def ask(built: G.Built, conv, spec: dict, stage: str) -> list[str]:
+    """Ask the questions of one stage; returns what was asked (for messages).  The answers are not judged here
+    (they are the business of C01 / C02); whatever a call raises is an outcome like any other."""
+    rnd = random.Random(spec['seed'] * 2 + (1 if stage == 'mid' else 0))
+    grids = [(k, dims, shape) for k, (dims, shape) in built.grids.items() if all(s > 0 for s in shape)]
+    asked: list[str] = []
+    if not grids:
+        return asked
+    try:
+        kind_objs = {getattr(k, 'value', k): k for k in conv.grid_kinds}
+    except Exception as e:  # noqa: BLE001
+        return [f'grid_kinds raised {type(e).__name__}']
+    ds = built.ds
+    for _ in range(spec['n']):
+        kind, gdims, gshape = rnd.choice(grids)
+        size = int(np.prod(gshape))
+        call = rnd.choice(CALLS)
+        ko = kind_objs.get(kind)
+        some = list(range(size)) if rnd.random() < 0.5 else [rnd.randrange(size) for _ in range(rnd.randint(1, 2))]
+        leave_out = kind == built.default_kind and rnd.random() < 0.5       # the default grid need not be named
+        try:
+            with warnings.catch_warnings():
+                warnings.simplefilter('ignore')
+                if call in ('wind_index', 'unravel_index'):
+                    fn = getattr(conv, call)
+                    for n in some:
+                        fn(n) if leave_out else fn(n, grid_kind=ko)
+                    what = f"{call}({some[0] if len(some) == 1 else some}{'' if leave_out else ', grid_kind=' + kind})"
+                elif call == 'ravel_index':
+                    for n in some:
+                        comps = [int(v) for v in np.unravel_index(n, gshape)]
+                        conv.ravel_index(_native(built, ko, comps))
+                    what = f'ravel_index({kind}: {len(some)} positions)'
+                elif call == 'grid_shape':
+                    dict(conv.grid_shape), dict(conv.grid_size), dict(conv.grid_dimensions)
+                    what = 'grid_shape / grid_size / grid_dimensions'
+                elif call == 'get_grid_kind':
+                    names = [nm for nm, info in built.vars.items() if info.kind == kind and nm in ds]
+                    if not names:
+                        continue
+                    conv.get_grid_kind(ds[rnd.choice(names)])
+                    what = f'get_grid_kind({kind} variable)'
+                elif call == 'ravel_wind':
+                    names = [nm for nm, info in built.vars.items() if info.kind == kind and nm in ds]
+                    if not names:
+                        continue
+                    flat = conv.ravel(ds[rnd.choice(names)])
+                    conv.wind(flat, grid_kind=ko)
+                    what = f'wind(ravel({kind} variable), grid_kind={kind})'
+                elif call == 'select_index':
+                    comps = [int(v) for v in np.unravel_index(some[0], gshape)]
+                    conv.select_index(_native(built, ko, comps))
+                    what = f'select_index({kind}:{comps})'
+                else:
+                    comps = [int(v) for v in np.unravel_index(some[0], gshape)]
+                    conv.selector_for_index(_native(built, ko, comps))
+                    what = f'selector_for_index({kind}:{comps})'
+        except Exception as e:  # noqa: BLE001
+            what = f'{call}({kind}) raised {type(e).__name__}'
+        asked.append(what)
+    return asked
+
+
+def _native(built: G.Built, kind_obj, comps):
+    if built.conv in ('cf1d', 'cf2d', 'shoc_simple'):
+        return tuple(int(v) for v in comps)
+    return (kind_obj, *[int(v) for v in comps])
